@@ -311,6 +311,20 @@ def generic_replay(path):
     return 0
 
 
+def read_ledger(path):
+    """events of an allocation ledger; a process that dies while writing leaves a broken last line, which is dropped"""
+    out = []
+    if path and os.path.exists(path):
+        for ln in open(path, errors="replace"):
+            try:
+                ev = json.loads(ln)
+            except ValueError:
+                continue
+            if isinstance(ev, dict) and ev.get("e") == "h":
+                out.append(ev)
+    return out
+
+
 def write_ndjson(path, records):
     with open(path, "w") as f:
         for r in records:
